@@ -56,12 +56,29 @@ func genSize(t *rapid.T, label string) int {
 	}
 }
 
+// on-disk modes: permission bits, sometimes with setuid / setgid / sticky set on the source itself
 func genFileMode(t *rapid.T, label string) uint32 {
-	return uint32(rapid.IntRange(0, 0o777).Draw(t, label)) | 0o400
+	m := uint32(rapid.IntRange(0, 0o777).Draw(t, label)) | 0o400
+	switch rapid.IntRange(0, 11).Draw(t, label+".special") {
+	case 0:
+		m |= 0o4000
+	case 1:
+		m |= 0o2000
+	case 2:
+		m |= 0o1000
+	}
+	return m
 }
 
 func genDirMode(t *rapid.T, label string) uint32 {
-	return uint32(rapid.IntRange(0, 0o777).Draw(t, label)) | 0o700
+	m := uint32(rapid.IntRange(0, 0o777).Draw(t, label)) | 0o700
+	switch rapid.IntRange(0, 11).Draw(t, label+".special") {
+	case 0:
+		m |= 0o2000 // setgid directories are common in shared trees
+	case 1:
+		m |= 0o1000
+	}
+	return m
 }
 
 var userName = rapid.StringMatching(`[a-z_][a-z0-9_-]{0,7}`)
